@@ -58,6 +58,12 @@ where
 
     /// Inserts the `value` into the data structure.
     pub fn insert(&mut self, value: Value) {
+        // Inserting a value that is already known must not detach it from the set it has been
+        // merged into.
+        if self.reps.get(&value).is_some() {
+            return;
+        }
+
         self.reps.insert(&value.clone(), value);
     }
 
